@@ -418,6 +418,11 @@ func evalConstructorDeclareStmt(vm *r.VM, node *syntax.FunctionDeclareStmt) erro
 	if module == nil || module.GetID() == r.NATIVE_CODE_MODULE_ID || module.GetProgram() == nil {
 		return zerr.InvalidClassType(className.GetLiteral())
 	}
+	// ... whatever name the class object was reached by: a predefined or library type handed
+	// to a method as an argument is a local name of a program module, but still that type
+	if !cmodel.IsDeclaredByProgram() {
+		return zerr.InvalidClassType(className.GetLiteral())
+	}
 
 	//// there are some different Factors from normal method function:
 	// 1. no outerScope (clousure scope)
